@@ -60,58 +60,65 @@ Proof.
 Qed.
 
 Lemma push_rune_facts : forall modes l r,
-  modes_wf modes = true -> forallb mode_progress_ok modes = true -> sm_inv modes l ->
+  modes_wf modes = true -> sm_inv modes l ->
   exists c l', push_rune modes l r = Some (c, l') /\ sm_inv_w modes l' /\
     (c <> lexError -> sm_inv modes l') /\
-    ((c = lexConsume /\ 0 <= r /\ sm_state l' <> 0) \/
-     (1 <= c <= 3 /\ sm_state l' = 0 /\ sm_state l <> 0) \/
-     (c = lexEOF /\ r = -1) \/
-     (c = lexError /\ (sm_state l = 0 -> r <> -1))).
+    ((c = lexConsume /\ 0 <= r /\ sm_consumed l' = true /\ sm_accum l' = sm_accum l) \/
+     (1 <= c <= 3 /\ sm_consumed l' = false /\ sm_consumed l = true /\
+      sm_accum l' = (c =? lexTryAgain)) \/
+     (c = lexEOF /\ r = -1 /\ sm_consumed l = false /\ sm_accum l = false) \/
+     (c = lexError /\ (sm_consumed l = false -> r <> -1 \/ sm_accum l = true))).
 Proof.
-  intros modes l r Hwf Hprog [Hmd [Hs Hst]].
-  destruct l as [tok s md st]. cbn [sm_token sm_state sm_mode sm_stack] in *.
+  intros modes l r Hwf [Hmd [Hs Hst]].
+  destruct l as [tok s cn a md st]. cbn [sm_token sm_state sm_consumed sm_accum sm_mode sm_stack] in *.
   destruct (nth_error modes md) as [mode|] eqn:Emode; [|apply nth_error_None in Emode; lia].
+  pose proof Hs as Hs_orig.
   rewrite (nth_error_nth _ _ _ Emode) in Hs.
   pose proof (modes_wf_mode _ _ _ Hwf Emode) as Hmwf.
   destruct (mode_wf_row _ _ _ Hmwf Hs) as [v [Hdec Hrow]].
   destruct Hrow as [Hsorted Htrans Hacts].
-  pose proof (progress_mode _ _ _ Hprog Emode) as Hpm.
-  pose proof (progress_row mode s v Hpm Hs Hdec) as Hnz.
-  assert (Hs0 : s = 0 -> v_acts v = []).
-  { intros ->. apply (progress_row0 mode v Hpm Hdec). }
-  rewrite (push_rune_eq modes md mode s v tok st r Emode Hdec Hsorted).
+  rewrite (push_rune_eq modes md mode s v tok cn a st r Emode Hdec Hsorted).
   unfold sm_inv, sm_inv_w.
   destruct (if v_flag v then None else lookup Z (v_trans v) r) as [t|] eqn:Elk.
   - assert (Hlk : lookup Z (v_trans v) r = Some t) by (destruct (v_flag v); [discriminate|exact Elk]).
     destruct (lookup_some_in Z _ _ _ Hlk) as [lo [hi [Hin Hr]]].
-    specialize (Hnz _ _ _ Hin). destruct (Htrans _ _ _ Hin) as [_ Ht].
+    destruct (Htrans _ _ _ Hin) as [_ Ht].
     destruct (sorted_lo_pos _ _ _ _ Hsorted Hin) as [Hlo _].
-    eexists. eexists. split; [reflexivity|]. cbn [sm_token sm_state sm_mode sm_stack].
+    eexists. eexists. split; [reflexivity|].
+    cbn [sm_token sm_state sm_consumed sm_accum sm_mode sm_stack].
     rewrite (nth_error_nth _ _ _ Emode).
     split; [split; assumption|]. split; [intros _; repeat split; try assumption; lia|].
     left. repeat split; try assumption; lia.
-  - pose proof (act_spec_ok (length modes) (v_acts v) md st Hacts Hmd Hst) as Hok.
+  - destruct cn; cbn [negb].
+    2:{ cbn [sm_consumed sm_accum negb].
+        destruct (true && (r =? -1) && negb a) eqn:Eeof.
+        - eexists. eexists. split; [reflexivity|].
+          cbn [sm_token sm_state sm_consumed sm_accum sm_mode sm_stack].
+          split; [split; assumption|]. split; [intros _; split; [assumption|split; [exact Hs_orig|assumption]]|].
+          right. right. left. split; [reflexivity|]. destruct a; cbn [negb] in Eeof; lia.
+        - eexists. eexists. split; [reflexivity|].
+          cbn [sm_token sm_state sm_consumed sm_accum sm_mode sm_stack].
+          split; [split; assumption|]. split; [intros Hc; exfalso; apply Hc; reflexivity|].
+          right. right. right. split; [reflexivity|]. intros _.
+          destruct a; [right; reflexivity|left; cbn [negb] in Eeof; lia]. }
+    pose proof (act_spec_ok (length modes) (v_acts v) md st Hacts Hmd Hst) as Hok.
     destruct (act_spec (length modes) (v_acts v) md st) as [|m' st'|c tk m' st'|m' st'] eqn:Eact;
       cbn [sm_out]; [contradiction| | |]; destruct Hok as [Hm' Hst'].
-    + eexists. eexists. split; [reflexivity|]. cbn [sm_token sm_state sm_mode sm_stack].
+    + eexists. eexists. split; [reflexivity|].
+      cbn [sm_token sm_state sm_consumed sm_accum sm_mode sm_stack].
       split; [split; assumption|]. split; [intros Hc; exfalso; apply Hc; reflexivity|].
-      right. right. right. split; [reflexivity|].
-      intros ->. rewrite (Hs0 eq_refl) in Eact. discriminate Eact.
+      right. right. right. split; [reflexivity|]. intros Hc; discriminate Hc.
     + pose proof (act_spec_term_code _ _ _ _ _ _ _ _ Eact) as Hc.
       pose proof (nstates_pos modes m' Hwf Hm').
-      eexists. eexists. split; [reflexivity|]. cbn [sm_token sm_state sm_mode sm_stack].
+      eexists. eexists. split; [reflexivity|].
+      cbn [sm_token sm_state sm_consumed sm_accum sm_mode sm_stack].
       split; [split; assumption|]. split; [intros _; repeat split; try assumption; lia|].
-      right. left. split; [exact Hc|]. split; [reflexivity|].
-      intros ->. rewrite (Hs0 eq_refl) in Eact. discriminate Eact.
-    + cbn [sm_state].
-      destruct ((s =? 0) && (r =? -1)) eqn:Eeof.
-      * pose proof (nstates_pos modes m' Hwf Hm').
-        eexists. eexists. split; [reflexivity|]. cbn [sm_token sm_state sm_mode sm_stack].
-        split; [split; assumption|]. split; [intros _; repeat split; try assumption; lia|].
-        right. right. left. split; [reflexivity|lia].
-      * eexists. eexists. split; [reflexivity|]. cbn [sm_token sm_state sm_mode sm_stack].
-        split; [split; assumption|]. split; [intros Hc; exfalso; apply Hc; reflexivity|].
-        right. right. right. split; [reflexivity|]. intros ->. lia.
+      right. left. split; [exact Hc|]. repeat split.
+    + cbn [sm_consumed sm_accum negb andb].
+      eexists. eexists. split; [reflexivity|].
+      cbn [sm_token sm_state sm_consumed sm_accum sm_mode sm_stack].
+      split; [split; assumption|]. split; [intros Hc; exfalso; apply Hc; reflexivity|].
+      right. right. right. split; [reflexivity|]. intros Hc; discriminate Hc.
 Qed.
 
 (* the raw machine reports EOF only on the EOF rune, whatever the tables *)
@@ -149,8 +156,10 @@ Proof.
   match type of H with
   | match ?ra with _ => _ end = _ => destruct ra as [c l1|l1|] eqn:Era
   end; [| |discriminate].
-  - injection H as -> _. exfalso. eapply run_actions_codes; [exact Era|reflexivity].
-  - destruct ((sm_state l1 =? 0) && (r =? -1)) eqn:E; [lia|discriminate].
+  - injection H as -> _. exfalso.
+    destruct (negb (sm_consumed l)); [discriminate Era|].
+    eapply run_actions_codes; [exact Era|reflexivity].
+  - destruct (negb (sm_consumed l1) && (r =? -1) && negb (sm_accum l1)) eqn:E; [lia|discriminate].
 Qed.
 
 (* ---------- L7: tiling, for any state machine that reports EOF only at -1 ---------- *)
@@ -334,12 +343,12 @@ Print Assumptions lex_tiling.
 (* ---------- L6: totality ---------- *)
 
 Definition phi (x : lexer sm) : nat :=
-  (2 * length (lx_rest x) + (if (sm_state (lx_sm x) =? 0)%Z then 0 else 1))%nat.
+  (3 * length (lx_rest x) + (if sm_consumed (lx_sm x) then 2 else 0)
+   + (if sm_accum (lx_sm x) then 1 else 0))%nat.
 
 Section Total.
 Variable modes : list (list Z).
 Hypothesis Hwf : modes_wf modes = true.
-Hypothesis Hprog : forallb mode_progress_ok modes = true.
 
 Notation rt := (read_token sm (push_rune modes) sm_token sm_reset).
 Notation la := (lex_all sm (push_rune modes) sm_token sm_reset).
@@ -353,30 +362,30 @@ Proof.
   induction fuel as [|f IH]; intros x start acc Hinv Hok Hphi; [lia|].
   destruct x as [l rest off]. cbn [lx_sm lx_rest lx_off] in *.
   cbn [read_token]. rewrite lx_char_eq. cbn [lx_sm lx_rest lx_off].
-  destruct (push_rune_facts modes l (char_of rest) Hwf Hprog Hinv)
+  destruct (push_rune_facts modes l (char_of rest) Hwf Hinv)
     as [c [l' [Ep [Hw [Hfull Hcase]]]]].
   rewrite Ep. unfold phi in Hphi; cbn [lx_sm lx_rest] in Hphi.
-  destruct Hcase as [[-> [Hr Hs']]|[[Hc [Hs' Hs]]|[[-> Hr]|[-> Hr]]]].
+  destruct Hcase as [[-> [Hr [Hs' Ha']]]|[[Hc [Hs' [Hs Ha']]]|[[-> [Hr _]]|[-> Hr]]]].
   - (* consume *)
     cbn [Z.eqb lexConsume]. rewrite lx_consume_eq.
     destruct rest as [|[r w] rest]; [cbn [char_of] in Hr; lia|].
     cbn [consume_ro fst snd].
     assert (Hinv' : sm_inv modes l') by (apply Hfull; discriminate).
     inversion Hok; subst.
+    assert (Hdec : (phi (Build_lexer sm l' rest (off + w)) < phi (Build_lexer sm l ((r, w) :: rest) off))%nat).
+    { unfold phi; cbn [lx_sm lx_rest length]. rewrite Ha', Hs'.
+      destruct (sm_consumed l); lia. }
     destruct (IH (Build_lexer sm l' rest (off + w))
                 (Some match start with Some s => s | None => off end) acc)
       as [segs [x' [Hrt [Hi [Hk Hd]]]]]; cbn [lx_sm lx_rest]; try assumption.
-    { unfold phi; cbn [lx_sm lx_rest length] in *.
-      destruct (sm_state l' =? 0) eqn:E; [lia|]. destruct (sm_state l =? 0); lia. }
+    { unfold phi in *; cbn [lx_sm lx_rest length] in *. lia. }
     exists segs, x'. split; [exact Hrt|]. split; [exact Hi|]. split; [exact Hk|].
-    destruct Hd as [Hd|Hd]; [left; exact Hd|right].
-    unfold phi in *; cbn [lx_sm lx_rest length] in *.
-    destruct (sm_state l' =? 0) eqn:E; [lia|]. destruct (sm_state l =? 0); lia.
+    destruct Hd as [Hd|Hd]; [left; exact Hd|right; lia].
   - (* accept / discard / try again: back to state 0 *)
     assert (Hinv' : sm_inv modes l') by (apply Hfull; unfold lexError; lia).
     assert (Hdec : (phi (Build_lexer sm l' rest off) < phi (Build_lexer sm l rest off))%nat).
-    { unfold phi; cbn [lx_sm lx_rest]. rewrite Hs'. cbn [Z.eqb].
-      destruct (sm_state l =? 0) eqn:E; lia. }
+    { unfold phi; cbn [lx_sm lx_rest]. rewrite Hs', Hs.
+      destruct (sm_accum l'); destruct (sm_accum l); lia. }
     destruct (c =? lexConsume) eqn:E0; [unfold lexConsume in E0; lia|].
     destruct (c =? lexAccept) eqn:E1.
     { eexists. eexists. split; [reflexivity|]. cbn [lx_sm lx_rest].
@@ -406,12 +415,14 @@ Proof.
     eexists. eexists. split; [reflexivity|]. cbn [lx_sm lx_rest].
     split; [apply sm_inv_reset; assumption|].
     split; [apply consume_ro_forall; apply skip_ro_forall; exact Hok|].
-    right. unfold phi; cbn [lx_sm lx_rest sm_reset sm_state Z.eqb].
+    right. unfold phi; cbn [lx_sm lx_rest sm_reset sm_consumed sm_accum].
     pose proof (error_skip_len (S (length rest)) rest off) as [Hle Hlt]. cbv zeta in Hle, Hlt.
-    destruct (sm_state l =? 0) eqn:E; [|lia].
-    assert (Hne : rest <> []).
-    { intros ->. cbn [char_of] in Hr. apply Hr; [lia|reflexivity]. }
-    specialize (Hlt Hne). lia.
+    destruct (sm_consumed l) eqn:E; [lia|].
+    destruct (Hr eq_refl) as [Hr'|Hacc].
+    + assert (Hne : rest <> []).
+      { intros ->. cbn [char_of] in Hr'. apply Hr'. reflexivity. }
+      specialize (Hlt Hne). lia.
+    + rewrite Hacc. lia.
 Qed.
 
 Lemma lex_all_total : forall fuel x acc,
@@ -428,12 +439,12 @@ Qed.
 
 Theorem lex_total : forall inp,
   (forall r w, In (r, w) inp -> 0 <= r) ->
-  exists segs, lex_tables modes (2 * length inp + 1) inp = LDone segs.
+  exists segs, lex_tables modes (3 * length inp + 1) inp = LDone segs.
 Proof.
   intros inp Hinp. unfold lex_tables, lex_input. apply lex_all_total; cbn [lx_sm lx_rest].
   - apply sm_inv_init. exact Hwf.
   - apply Forall_forall. intros [r w] Hin. cbn [fst]. apply (Hinp r w Hin).
-  - unfold phi; cbn [lx_sm lx_rest sm_init sm_state Z.eqb]. lia.
+  - unfold phi; cbn [lx_sm lx_rest sm_init sm_consumed sm_accum]. lia.
 Qed.
 
 (* no crash, for any fuel and any input whatsoever *)
@@ -448,7 +459,7 @@ Proof.
   induction fuel as [|f IH]; intros x start acc Hinv; [exact I|].
   destruct x as [l rest off]. cbn [lx_sm lx_rest lx_off] in *.
   cbn [read_token]. rewrite lx_char_eq. cbn [lx_sm lx_rest lx_off].
-  destruct (push_rune_facts modes l (char_of rest) Hwf Hprog Hinv)
+  destruct (push_rune_facts modes l (char_of rest) Hwf Hinv)
     as [c [l' [Ep [Hw [Hfull _]]]]].
   rewrite Ep.
   destruct (c =? lexConsume) eqn:E0.
@@ -480,19 +491,123 @@ Proof.
   cbn [lx_sm]. apply sm_inv_init. exact Hwf.
 Qed.
 
+(* ---------- L9: nothing is swallowed: the EOF segment is empty ---------- *)
+
+Lemma read_token_no_loss : forall fuel x start acc segs x',
+  sm_inv modes (lx_sm x) ->
+  (forall st, start = Some st -> sm_consumed (lx_sm x) = true \/ sm_accum (lx_sm x) = true) ->
+  (forall b e, In (SegEOF b e) acc -> b = e) ->
+  rt fuel x start acc = RTok sm segs x' ->
+  (forall b e, In (SegEOF b e) segs -> b = e) /\ sm_inv modes (lx_sm x').
+Proof.
+  induction fuel as [|f IH]; intros x start acc segs x' Hinv Hstart Hacc H; [discriminate|].
+  destruct x as [l rest off]. cbn [lx_sm lx_rest lx_off] in *.
+  cbn [read_token] in H. rewrite lx_char_eq in H. cbn [lx_sm lx_rest lx_off] in H.
+  destruct (push_rune_facts modes l (char_of rest) Hwf Hinv)
+    as [c [l' [Ep [Hw [Hfull Hcase]]]]].
+  rewrite Ep in H.
+  destruct Hcase as [[-> [Hr [Hs' Ha']]]|[[Hc [Hs' [Hs Ha']]]|[[-> [Hr [Hcn Hac]]]|[-> Hr]]]].
+  - (* consume *)
+    cbn [Z.eqb lexConsume] in H. rewrite lx_consume_eq in H.
+    apply (IH _ _ _ _ _) in H; [exact H| | |exact Hacc]; cbn [lx_sm].
+    + apply Hfull. discriminate.
+    + intros st _. left. exact Hs'.
+  - assert (Hinv' : sm_inv modes l') by (apply Hfull; unfold lexError; lia).
+    destruct (c =? lexConsume) eqn:E0; [unfold lexConsume in E0; lia|].
+    destruct (c =? lexAccept) eqn:E1.
+    { injection H as <- <-. cbn [lx_sm]. split; [|exact Hinv'].
+      intros b e Hin. apply in_rev in Hin. destruct Hin as [Hin|Hin]; [discriminate Hin|].
+      apply Hacc. exact Hin. }
+    destruct (c =? lexDiscard) eqn:E2.
+    { apply (IH _ _ _ _ _) in H; [exact H|exact Hinv'|intros st Hst; discriminate Hst|].
+      intros b e [Hin|Hin]; [discriminate Hin|apply Hacc; exact Hin]. }
+    destruct (c =? lexTryAgain) eqn:E3; [|unfold lexAccept, lexDiscard, lexTryAgain in *; lia].
+    apply (IH _ _ _ _ _) in H; [exact H|exact Hinv'| |exact Hacc].
+    cbn [lx_sm]. intros st _. right. rewrite Ha'. exact E3.
+  - (* EOF: only at a token boundary with nothing pending, so the token started here *)
+    cbn [Z.eqb lexEOF lexConsume lexAccept lexDiscard lexTryAgain] in H.
+    injection H as <- <-. cbn [lx_sm]. split; [|apply Hfull; discriminate].
+    destruct start as [st|].
+    { destruct (Hstart st eq_refl) as [Hx|Hx]; rewrite Hx in *; discriminate. }
+    intros b e Hin. apply in_rev in Hin. destruct Hin as [Hin|Hin].
+    + injection Hin as <- <-. reflexivity.
+    + apply Hacc. exact Hin.
+  - cbn [Z.eqb lexError lexEOF lexConsume lexAccept lexDiscard lexTryAgain] in H.
+    rewrite skip_line_eq, lx_consume_eq in H. cbn [lx_sm lx_rest lx_off] in H.
+    injection H as <- <-. cbn [lx_sm]. split; [|apply sm_inv_reset; assumption].
+    intros b e Hin. apply in_rev in Hin. destruct Hin as [Hin|Hin]; [discriminate Hin|].
+    apply Hacc. exact Hin.
+Qed.
+
+Lemma lex_all_no_loss : forall fuel x acc segs,
+  sm_inv modes (lx_sm x) ->
+  (forall b e, In (SegEOF b e) acc -> b = e) ->
+  la fuel x acc = LDone segs ->
+  forall b e, In (SegEOF b e) segs -> b = e.
+Proof.
+  induction fuel as [|f IH]; intros x acc segs Hinv Hacc H; [discriminate|].
+  cbn [lex_all] in H.
+  destruct (rt (S f) x None []) as [segs1 x'| |] eqn:Er; try discriminate.
+  destruct (read_token_no_loss (S f) x None [] segs1 x' Hinv) as [H1 Hinv']; try exact Er.
+  { intros st Hst; discriminate Hst. }
+  { intros b e []. }
+  assert (Hacc' : forall b e, In (SegEOF b e) (acc ++ segs1) -> b = e).
+  { intros b e Hin. apply in_app_or in Hin. destruct Hin as [Hin|Hin]; [apply Hacc|apply H1]; exact Hin. }
+  destruct (existsb is_eof_seg segs1).
+  - injection H as <-. exact Hacc'.
+  - apply (IH x' (acc ++ segs1) segs Hinv' Hacc' H).
+Qed.
+
+(* the strongest form: no hypothesis on the input at all *)
+Theorem lex_no_loss : forall fuel inp segs,
+  lex_tables modes fuel inp = LDone segs ->
+  forall b e, In (SegEOF b e) segs -> b = e.
+Proof.
+  intros fuel inp segs H. unfold lex_tables, lex_input in H.
+  apply (lex_all_no_loss fuel _ [] segs); [|intros b e []|exact H].
+  cbn [lx_sm]. apply sm_inv_init. exact Hwf.
+Qed.
+
+Lemma tiles_app_last : forall pre s b e, tiles b (pre ++ [s]) e -> tiles b pre (seg_b s).
+Proof.
+  induction pre as [|p pre IH]; intros s b e H; cbn [tiles app] in *.
+  - destruct H as [H _]. symmetry. exact H.
+  - destruct H as [Hb H]. split; [exact Hb|]. eapply IH. exact H.
+Qed.
+
+(* with lex_tiling: the token, discard and error segments tile
+   [0, total_width inp) exactly and the EOF segment is the empty one at the end *)
+Theorem lex_exact_tiling : forall fuel inp segs,
+  (forall r w, In (r, w) inp -> 0 <= r) ->
+  lex_tables modes fuel inp = LDone segs ->
+  exists pre,
+    segs = pre ++ [SegEOF (total_width inp) (total_width inp)] /\
+    Forall noneof pre /\
+    tiles 0 pre (total_width inp).
+Proof.
+  intros fuel inp segs Hinp H.
+  destruct (lex_tiling modes fuel inp segs Hinp H) as [pre [b [Hs [Hpre Ht]]]].
+  assert (Hb : b = total_width inp).
+  { apply (lex_no_loss fuel inp segs H). rewrite Hs. apply in_or_app. right. left. reflexivity. }
+  subst b. exists pre. split; [exact Hs|]. split; [exact Hpre|].
+  rewrite Hs in Ht. apply tiles_app_last in Ht. exact Ht.
+Qed.
+
 End Total.
 
 (* the statement in the requested form *)
 Corollary lex_total_fuel : forall modes,
-  modes_wf modes = true -> forallb mode_progress_ok modes = true ->
+  modes_wf modes = true ->
   forall inp, (forall r w, In (r, w) inp -> 0 <= r <= 1114111 /\ 0 < w) ->
   exists fuel segs, lex_tables modes fuel inp = LDone segs.
 Proof.
-  intros modes Hwf Hprog inp Hinp.
-  destruct (lex_total modes Hwf Hprog inp) as [segs H].
+  intros modes Hwf inp Hinp.
+  destruct (lex_total modes Hwf inp) as [segs H].
   - intros r w Hin. destruct (Hinp r w Hin) as [[H0 _] _]. exact H0.
-  - exists (2 * length inp + 1)%nat, segs. exact H.
+  - exists (3 * length inp + 1)%nat, segs. exact H.
 Qed.
 Print Assumptions lex_total.
 Print Assumptions lex_total_fuel.
 Print Assumptions lex_no_crash.
+Print Assumptions lex_no_loss.
+Print Assumptions lex_exact_tiling.
